@@ -447,7 +447,8 @@ pub fn mixed_batches<S: HideOps>(rec: &mut Rec) {
     let pb = shapes[shapes.len() / 2].1.clone();
     let bound = if S::BOUNDS { if S::NAME == "IPA" { Some(7) } else { Some(5) } } else { None };
     // hiding pattern per position: H = hiding, N = non-hiding
-    for pattern in ["HN", "NH", "HNH", "HNN", "NHN", "HHN", "NNH", "HbN", "NbH"] {
+    // a trailing '=' means: every member is the SAME polynomial (equal inputs must still get independent blinding)
+    for pattern in ["HN", "NH", "HNH", "HNN", "NHN", "HHN", "NNH", "HbN", "NbH", "HH=", "HHH=", "NHH=", "bHH=", "HNHNH="] {
         let id = format!("{}/hide/batch/{}", S::NAME, pattern);
         if !rec.take(&id) {
             continue;
@@ -455,13 +456,17 @@ pub fn mixed_batches<S: HideOps>(rec: &mut Rec) {
         rec.dim("scheme", S::NAME);
         let mut polys: Vec<LP<S>> = Vec::new();
         let mut with_bound = false;
+        let same_poly = pattern.ends_with('=');
         for ch in pattern.chars() {
+            if ch == '=' {
+                continue;
+            }
             if ch == 'b' {
                 with_bound = true;
                 continue;
             }
             let i = polys.len();
-            let p = if i % 2 == 0 { pa.clone() } else { pb.clone() };
+            let p = if same_poly { pb.clone() } else if i % 2 == 0 { pa.clone() } else { pb.clone() };
             let b = if with_bound && S::degree(&p) <= bound.unwrap_or(0) { bound } else { None };
             polys.push(lp::<S>(&format!("m{}", i), p, b, if ch == 'H' { Some(1) } else { None }));
         }
